@@ -1847,3 +1847,8 @@ MA('C18', 'real input with sign + computed as the conjugate of the forward FFT',
    'out = np.fft.ifftn(preproc, axes=self.axes)',
    'out = np.conj(np.fft.fftn(preproc, axes=self.axes)) / np.prod(np.take(self.domain.shape, self.axes)) if self.domain.field == RealNumbers() else np.fft.ifftn(preproc, axes=self.axes)',
    'unshifted')
+MA('C01', 'discretized division skips zero denominators',
+   'odl/discr/discr_space.py', 'DiscretizedSpace._divide',
+   'self.tspace._divide(x1.tensor, x2.tensor, out.tensor)',
+   'np.divide(x1.tensor.data, x2.tensor.data, out=out.tensor.data, where=(x2.tensor.data != 0))',
+   'DiscretizedSpace._divide')
